@@ -623,6 +623,7 @@ Qed.
     shape; if the source changes it, this lemma stops compiling and the model must be revisited. *)
 Lemma intake_shape_current :
   recv_verifies_sender_sig = true /\ own_sigs_mandatory = true /\
+  decode_rejects_unsigned_proposal = true /\
   intake_checks_endorser_sigs = false /\ intake_checks_claimed_identity = false.
 Proof. repeat split; reflexivity. Qed.
 
